@@ -31,9 +31,11 @@ EXPECTED_PROBES = ['sensor:RTD', 'sensor:Thermocouple', 'sensor:Thermistor', 'se
                    'empty-window', 'zero-length-channel', 'file-chunk-without-channel', 'daqmx', 'string-chunk']
 
 
-def add_sensor(rng, spec, ctype, p):
+def add_sensor(rng, spec, ctype, p, only_float=False):
     for path, t in ctype.items():
         if t not in scalemodel.SCALABLE or rng.random() >= p or path not in spec['names']:
+            continue
+        if only_float and t not in ('f32', 'f64'):
             continue
         L = _first_listing(spec, path)
         if L is None or any(pr[0].startswith('NI_') for pr in L['props']):
